@@ -78,6 +78,9 @@ structure Conn where
   cutoff : Bool := false
   connected : Bool := true
   wl : Bool := false
+  /-- the attached wire log records what is sent / received (log open and that direction enabled: `txed` / `rxed`) -/
+  logTx : Bool := false
+  logRx : Bool := false
   wireTx : Bytes := []
   wireRx : Bytes := []
   /-- ghost: bytes the kernel accepted so far (what the peer can ever have) -/
@@ -122,7 +125,7 @@ def send (c : Conn) : Conn × Except Exn Nat :=
       ({ c with sends := rest, kacc := c.kacc ++ c.txbs.take k }, .error .osError)
     else
     ({ c with sends := rest, kacc := c.kacc ++ c.txbs.take k,
-              wireTx := if c.wl then c.wireTx ++ c.txbs.take k else c.wireTx }, .ok k)
+              wireTx := if c.logTx then c.wireTx ++ c.txbs.take k else c.wireTx }, .ok k)
 
 /-- `del self.txbs[:count]` after a `send` that returned, or the exception going up -/
 def finishSend (r : Conn × Except Exn Nat) : Conn × Option Exn :=
@@ -159,7 +162,7 @@ def recvLoop (c : Conn) : List RResp → Conn × Option Exn
           -- the bytes were read from the kernel, then the wire-log call raised: they never reach rxbs
           ({ c with recvs := rest, kdel := c.kdel ++ d }, some .osError)
         else recvLoop { c with rxbs := c.rxbs ++ d, kdel := c.kdel ++ d,
-                               wireRx := if c.wl then c.wireRx ++ d else c.wireRx } rest
+                               wireRx := if c.logRx then c.wireRx ++ d else c.wireRx } rest
 
 def serviceReceives (c : Conn) : Conn × Option Exn :=
   if c.guard then recvLoop c c.recvs else (c, none)
@@ -174,7 +177,7 @@ def serviceReceiveOnce (c : Conn) : Conn × Option Exn :=
       if d = [] then ({ c with recvs := rest, cutoff := true }, none)
       else if c.wlFailsRx then ({ c with recvs := rest, kdel := c.kdel ++ d }, some .osError)
       else ({ c with recvs := rest, rxbs := c.rxbs ++ d, kdel := c.kdel ++ d,
-                     wireRx := if c.wl then c.wireRx ++ d else c.wireRx }, none)
+                     wireRx := if c.logRx then c.wireRx ++ d else c.wireRx }, none)
   else (c, none)
 
 /-- what `receive()` returns when the socket raised `code`: `b''` for a cut-off, `None` otherwise (or it raises) -/
@@ -194,7 +197,7 @@ def recvDirect (c : Conn) : Conn × Option Exn × Option Bytes :=
     if d = [] then ({ c with recvs := rest, cutoff := true }, none, some [])
     else if c.wlFailsRx then ({ c with recvs := rest, kdel := c.kdel ++ d }, some .osError, none)
     else ({ c with recvs := rest, kdel := c.kdel ++ d, cleared := c.cleared,
-                   wireRx := if c.wl then c.wireRx ++ d else c.wireRx }, none, some d)
+                   wireRx := if c.logRx then c.wireRx ++ d else c.wireRx }, none, some d)
 
 /-- a direct `send(data)` call by the application with its own data: returns the count -/
 def sendDirect (c : Conn) (data : Bytes) : Conn × Except Exn Nat :=
@@ -205,7 +208,7 @@ def sendDirect (c : Conn) (data : Bytes) : Conn × Except Exn Nat :=
     let k := min n data.length
     if 0 < k ∧ c.wlFailsTx = true then ({ c with sends := rest, kacc := c.kacc ++ data.take k }, .error .osError)
     else ({ c with sends := rest, kacc := c.kacc ++ data.take k,
-                   wireTx := if c.wl then c.wireTx ++ data.take k else c.wireTx }, .ok k)
+                   wireTx := if c.logTx then c.wireTx ++ data.take k else c.wireTx }, .ok k)
 
 inductive Op where
   | tx (d : Bytes) | ss | sr | svc | rst | sro | clr
@@ -241,7 +244,11 @@ def payload : List Op → Bytes
   | .tx d :: ops => d ++ payload ops
   | _ :: ops => payload ops
 
-def init (kind : Kind) (wl : Bool) (sends : List SResp) (recvs : List RResp) : Conn :=
-  { kind := kind, wl := wl, sends := sends, recvs := recvs }
+/-- a fresh connection; `wl`: a wire log is attached (and open); `txed`/`rxed`: the directions it is configured to record -/
+def init (kind : Kind) (wl : Bool) (sends : List SResp) (recvs : List RResp) (txed : Bool := true) (rxed : Bool := true) : Conn :=
+  { kind := kind, wl := wl, logTx := wl && txed, logRx := wl && rxed, sends := sends, recvs := recvs }
+
+/-- the wire-log configuration of a connection object never changes by itself -/
+def Conn.flags (c : Conn) : Bool × Bool × Bool := (c.wl, c.logTx, c.logRx)
 
 end Hio.Tcp
